@@ -57,9 +57,15 @@ func (con *Connection) EncryptedWrite(b []byte) (int, error) {
 	con.writeMutex.Lock()
 	defer con.writeMutex.Unlock()
 
+	// The session is gone when the connection was closed in the meantime
+	encrypter := con.getEncrypter()
+	if encrypter == nil {
+		return 0, io.ErrClosedPipe
+	}
+
 	var buffer bytes.Buffer
 	buffer.Write(b)
-	encrypted, err := con.getEncrypter().Encrypt(&buffer)
+	encrypted, err := encrypter.Encrypt(&buffer)
 
 	if err != nil {
 		log.Info.Panic("Encryption failed:", err)
